@@ -35,26 +35,29 @@ Definition piece_inv (len0 avail0 need0 cap0 : N) (st : N * N * N * N * bool) : 
   let '(lft, avail, len, cap, stopped) := st in
   cap <= N.max cap0 (3 * len + 8192) /\ len + avail = len0 + avail0 /\ len + lft = len0 + need0.
 
-Lemma piece_step_inv len0 avail0 need0 cap0 st :
-  piece_inv len0 avail0 need0 cap0 st -> piece_inv len0 avail0 need0 cap0 (piece_step st).
+Lemma piece_step_inv mlen len0 avail0 need0 cap0 st :
+  piece_inv len0 avail0 need0 cap0 st -> piece_inv len0 avail0 need0 cap0 (piece_step mlen st).
 Proof.
   destruct st as [[[[lft avail] len] cap] stopped]. unfold piece_inv, piece_step.
   intros (H1 & H2 & H3).
   destruct (stopped || (lft =? 0)); [repeat split; assumption|].
   set (p := N.min lft (N.max len init_msg_len)).
-  pose proof (grow_cap_bound cap len p ltac:(subst p; lia)) as Hg.
+  set (room := N.min (mlen - len) (N.max len init_msg_len)).
+  pose proof (grow_cap_bound cap len room ltac:(subst room; lia)) as Hg.
+  set (cap' := if p <=? cap - len then cap else grow_cap cap len room).
+  assert (Hc : cap' <= N.max cap0 (3 * len + 8192)) by (subst cap'; destruct (p <=? cap - len); lia).
   destruct (N.leb_spec p avail).
   - repeat split; [|lia|subst p; lia]. unfold init_msg_len in *. lia.
   - repeat split; [lia|assumption|assumption].
 Qed.
 
-Lemma pieces_cap_bound need avail len cap :
-  pieces_cap need avail len cap <= N.max cap (3 * (len + N.min need avail) + 8192).
+Lemma pieces_cap_bound mlen need avail len cap :
+  pieces_cap mlen need avail len cap <= N.max cap (3 * (len + N.min need avail) + 8192).
 Proof.
   unfold pieces_cap.
-  pose proof (N.iter_invariant 40 _ piece_step (piece_inv len avail need cap)
-                (fun x Hx => piece_step_inv len avail need cap x Hx) (need, avail, len, cap, false)) as H.
-  destruct (N.iter 40 piece_step (need, avail, len, cap, false)) as [[[[lft av] ln] cp] stp].
+  pose proof (N.iter_invariant 40 _ (piece_step mlen) (piece_inv len avail need cap)
+                (fun x Hx => piece_step_inv mlen len avail need cap x Hx) (need, avail, len, cap, false)) as H.
+  destruct (N.iter 40 (piece_step mlen) (need, avail, len, cap, false)) as [[[[lft av] ln] cp] stp].
   unfold piece_inv in H. destruct H as (H1 & H2 & H3); [repeat split; lia|]. lia.
 Qed.
 
@@ -253,11 +256,11 @@ Proof.
   rewrite avail_upto_spec, N.add_0_l.
   set (need := needed_size rv_fixed (cs_chunk cst) s2).
   set (avail := N.min need (lenN l3)).
-  pose proof (pieces_cap_bound need avail (s_len s2) c0) as Hp.
+  pose proof (pieces_cap_bound (h_len (s_hdr s2)) need avail (s_len s2) c0) as Hp.
   assert (Ha : avail + 1 <= lenN l) by (subst avail; unfold lenN in *; lia).
   split.
   - apply nset_all_ok; [assumption|]. unfold me_ok. cbn [me_cap me_got]. lia.
-  - destruct (nset_sums csid (mk_me (pieces_cap need avail (s_len s2) c0) (g0 + avail)) m) as (S1 & S2 & _).
+  - destruct (nset_sums csid (mk_me (pieces_cap (h_len (s_hdr s2)) need avail (s_len s2) c0) (g0 + avail)) m) as (S1 & S2 & _).
     rewrite Eg in S1. cbn [me_got] in S1. lia.
 Qed.
 
@@ -283,9 +286,9 @@ Proof.
   rewrite avail_upto_spec, N.add_0_l.
   set (need := needed_size rv_fixed (cs_chunk cst) s2) in *.
   assert (Hav : N.min need (lenN l3) = need) by lia. rewrite Hav.
-  pose proof (pieces_cap_bound need need (s_len s2) c0) as Hp.
+  pose proof (pieces_cap_bound (h_len (s_hdr s2)) need need (s_len s2) c0) as Hp.
   apply read_basic_length in E1. apply read_msg_header_length in E2. apply read_ext_ts_length in E3.
-  set (e1 := mk_me (pieces_cap need need (s_len s2) c0) (g0 + need)).
+  set (e1 := mk_me (pieces_cap (h_len (s_hdr s2)) need need (s_len s2) c0) (g0 + need)).
   split; [apply nset_all_ok; [assumption|unfold me_ok; subst e1; cbn [me_cap me_got]; lia]|].
   split.
   - intro c. destruct (N.eq_dec c csid) as [->|Hne].
